@@ -21,7 +21,7 @@
    total_balance_exact needs redeemed <= issued (unforgeability: every spent proof was issued) and totals below 2^64.
 *)
 From Coq Require Import ZArith List Bool.
-From Verif Require Import Model Sem InvDb InvSwap InvMint InvMelt Corollaries Queries Footprint HRel Global GlobalQuote GlobalValue GlobalErr GlobalQuery GlobalMelt GlobalKeys Cuts CutOrder Conc Races GlobalBalance GlobalLedger Reconf Trace Admin AdminProofs.
+From Verif Require Import Model Sem InvDb InvSwap InvMint InvMelt Corollaries Queries Footprint HRel Global GlobalQuote GlobalValue GlobalErr GlobalQuery GlobalMelt GlobalKeys Cuts CutOrder Conc Races GlobalBalance GlobalLedger Reconf GlobalPoll Trace Admin AdminProofs.
 Import ListNotations.
 Open Scope Z_scope.
 
@@ -116,12 +116,18 @@ Print Assumptions C16_mint_limit_enforced.
 Theorem C16_melt_limit_enforced : forall (cfg : config) (req h msat newid : Z) (w : world),
        0 < c_max_melt cfg ->
        c_max_melt cfg < (msat + 999) / 1000 ->
-       msat <> 0 ->
+       0 < msat < two63 ->
        exists w' : world,
          run (request_melt_quote cfg true true req h msat None newid) no_fault w = (w', Done (Err EMeltLimit)) /\
          same_but_calls w w'.
 Proof. exact @melt_limit_enforced. Qed.
 Print Assumptions C16_melt_limit_enforced.
+
+Theorem C16_melt_amount_must_fit : forall (cfg : config) (mpp : option Z) (req h msat newid : Z) (w : world),
+       msat <= 0 \/ two63 <= msat ->
+       run (request_melt_quote cfg true true req h msat mpp newid) no_fault w = (w, Done (Err EInvoice)).
+Proof. exact @melt_amount_must_fit. Qed.
+Print Assumptions C16_melt_amount_must_fit.
 
 Theorem C16_balance_limit_enforced : forall (cfg : config) (amount pk newid newhash : Z) (w : world) (bal : Z) (w1 : world),
        0 < c_max_balance cfg ->
